@@ -11,7 +11,7 @@
      t = "det"   : one generation in some context (thread, process, CLI worker count)       (C07)
      t = "total" : one batch of generation calls run in a watched child process             (C09)
      t = "vocab" : a generation claimed to contain given opcodes (bytes included)           (C12)
-     t = "vocabend": end of the seed scan of one protocol                                   (C12)
+     t = "vocabend": end of the seed scan of one protocol and opt-in flag setting           (C12)
      t = "leak"  : live-heap delta around new .. drop of one generator                      (C14)
      t = "front" : a front-end run and the library run for the configuration the
                    front end's options denote                                               (C13)
@@ -31,7 +31,7 @@ VARIABLES i,        \* lines consumed
           msgs
 vars == <<i, fresh, digests, covered, ops, msgs>>
 
-Init == i = 0 /\ fresh = <<>> /\ digests = <<>> /\ covered = [p \in 0..5 |-> {}] /\ ops = {} /\ msgs = <<>>
+Init == i = 0 /\ fresh = <<>> /\ digests = <<>> /\ covered = [p \in 0..23 |-> {}] /\ ops = {} /\ msgs = <<>>
 
 V(k, prop, why) == <<"V", k, prop, why>>
 D(k, tag, why) == <<"D", k, tag, why>>
@@ -79,19 +79,27 @@ OpsFrom(b, p, acc) ==
          IF ~r.known \/ ~r.ok \/ r.op = B_STOP THEN acc \cup {r.op}
          ELSE OpsFrom(b, r.nxt, acc \cup {r.op})
 
+(* one coverage set per (protocol, EXT flag, buffer flag) *)
+VKey(e) == e.P * 4 + e.ext + 2 * e.buf
+
 Vocab(k, e) ==
     LET claims == {e.claims[j] : j \in 1..Len(e.claims)} IN
     /\ ops' = LET o == OpsFrom(e.bytes, 1, {}) IN o \cup (IF B_FRAME \in o THEN {256} ELSE {257})
-    /\ covered' = [covered EXCEPT ![e.P] = @ \cup (claims \cap ops')]
+    /\ covered' = [covered EXCEPT ![VKey(e)] = @ \cup (claims \cap ops')]
     /\ msgs' = IF claims \subseteq ops' THEN <<>>
                ELSE <<D(k, "vocab", <<"hook claimed opcodes that the lexer does not find", claims \ ops'>>)>>
     /\ UNCHANGED <<fresh, digests>>
 
 VocabEnd(k, e) ==
-    LET need == Vocabulary(e.P, FALSE, FALSE) \cup (IF e.P >= 4 THEN {256, 257} ELSE {})
-        missing == need \ covered[e.P]
+    \* the default-settings scan answers for the standard vocabulary; a scan with opt-in opcodes
+    \* enabled (fewer seeds) answers for exactly the opcodes its flags add
+    LET need == IF e.ext = 0 /\ e.buf = 0
+                THEN Vocabulary(e.P, FALSE, FALSE) \cup (IF e.P >= 4 THEN {256, 257} ELSE {})
+                ELSE Vocabulary(e.P, e.ext = 1, e.buf = 1) \ Vocabulary(e.P, FALSE, FALSE)
+        missing == need \ covered[VKey(e)]
     IN /\ msgs' = IF missing = {} THEN <<>>
-                  ELSE <<V(k, "C12", <<"opcodes never produced for protocol", e.P, "in seeds", e.first_seed, e.n, missing>>)>>
+                  ELSE <<V(k, "C12", <<"opcodes never produced for protocol", e.P, "in seeds", e.first_seed, e.n, missing,
+                                       "EXT / buffer opcodes enabled:", e.ext, e.buf>>)>>
        /\ UNCHANGED <<fresh, digests, covered, ops>>
 
 (* ---- C14: nothing stays allocated after the generator is dropped ---- *)
@@ -126,6 +134,7 @@ Step ==
                [] e.t = "total" -> Total(k, e)
                [] e.t = "vocab" -> Vocab(k, e)
                [] e.t = "vocabend" -> VocabEnd(k, e)
+               [] e.t = "vocabreset" -> msgs' = <<>> /\ covered' = [p \in 0..23 |-> {}] /\ UNCHANGED <<fresh, digests, ops>>
                [] e.t = "leak" -> Leak(k, e)
                [] e.t = "front" -> Front(k, e)
                [] OTHER -> msgs' = <<D(k, "record", "unknown record type")>> /\ UNCHANGED <<fresh, digests, covered, ops>>
